@@ -59,7 +59,29 @@ if ROUND == 4:
               "C18G": "starting guesses with an all-zero row for the CP-APR problems",
               "C18H": "an option object that has already solved a problem of another size; long L-BFGS-B runs",
               "C20G": "function handles returning C-ordered / strided arrays"}
-for d in sorted(SRC.glob("C??[CDEFGH]")):
+if ROUND == 5:
+    MISSED = {"C02J": "the receiver's arrays are compared before / after every product (first run: TLC integer overflow = machinery failure, not a verdict)",
+              "C03I": "sparse operand holding halves against an integer-typed dense operand (the other half added by the harness)",
+              "C03J": "scalar products scaled to 2^-80 (small products are entries like any other)",
+              "C05J": "a matrix-shaped sparse receiver so that the scipy converter is applied to a live object",
+              "C06I": "the matricized form compared with that of the sorted operand (isequal and stored arrays)",
+              "C06J": "scalar products that underflow to exactly zero",
+              "C07I": "values relabelled to label + 2^53 stored as int64 (tiny operands under both value presentations)",
+              "C08I": "a column may be zero in the normal form only if it was zero in the operand",
+              "C09I": "counts stored in 8 bits",
+              "C10I": "the rank request object is compared before / after the call",
+              "C11J": "zero rows of the guess surviving a single outer iteration (objective -inf) as explicit witnesses",
+              "C13J": "histories with the solver's own default sampler on one object over different data (PlainWhy)",
+              "C14I": "the holder's arrays are compared before / after nvecs",
+              "C15J": "the symmetrised tensor may not share storage with its operand",
+              "C16I": "subscript offset 2^62 (the element count of the index space exceeds 2^63)",
+              "C16J": "header numbers with two digits (rank 10 / 12, mode length 11, 10 columns)",
+              "C17I": "the empty selection for dims and exclude_dims",
+              "C17J": "int16 / uint8 row matrices",
+              "C18I": "the starting guess is one object shared by all runs of a problem",
+              "C19I": "the weights pseudo-mode -1 in update requests, data short by less than one block",
+              "C20I": "aggregated values scaled by 2^-40 / 2^40"}
+for d in sorted(SRC.glob("C??[CDEFGHIJ]")):
     rj = d / "result.json"
     if not rj.exists():
         print(d.name, "no result"); continue
